@@ -433,7 +433,7 @@ def replyExtra (r : Reply) : String :=
   "reply:" ++ toString r.id ++ ":" ++
     (match r.result with
      | .ok evs d => "ok:" ++ fmtData d ++ ":" ++ fmtEvents evs
-     | .err => "err")
+     | .err => "err") ++ "~g0"
 
 /-- the code stored by `store TAG` -/
 def scripted (tag : String) : Code DExt where
